@@ -78,6 +78,11 @@ func VerifHarness_C09_O1() {
 	}
 	// what is really pending (a later Add with the same index and validator
 	// replaces an earlier one)
+	bodyBefore := make([]string, len(blocks))
+	for i, b := range blocks {
+		bh, _ := b.Body.Hash()
+		bodyBefore[i] = string(bh)
+	}
 	pendingBefore := map[string]bool{}
 	for _, bs := range h.PendingSignatures.Items() {
 		pendingBefore[bs.Signature] = true
@@ -87,6 +92,8 @@ func VerifHarness_C09_O1() {
 	for bi, b := range blocks {
 		sb, gerr := h.Store.GetBlock(bi)
 		verifAssert("block-still-stored", gerr == nil && sb == b)
+		bh, _ := sb.Body.Hash()
+		verifAssert("delivered-body-unchanged-only-signatures-grow", string(bh) == bodyBefore[bi])
 		for valHex, sigStr := range sb.Signatures {
 			found := -1
 			for k := range recs {
